@@ -502,7 +502,7 @@ where
             t: RFF::new(outs, nn),
             h: RHG { s: RICF::from_segs(&ssegs, nn), t: RICF::from_segs(&tsegs, nn), w, x: c.rng.vec_below(ne, p.edge_labels) },
         };
-        match c.rng.below(6) {
+        match c.rng.below(8) {
             0 => {
                 c.knob("mono:isolated-node-added");
                 f.h.w.push(0);
@@ -520,6 +520,26 @@ where
             2 if nn > 0 => {
                 c.knob("mono:extra-output");
                 f.t.table.push(c.rng.below(nn));
+            }
+            3 | 4 if nn > 1 => {
+                // one port re-pointed at another node: one node gains a producer/consumer, another
+                // loses one, so every total is unchanged (compensating violations)
+                c.knob("mono:port-redirected");
+                let v = c.rng.below(nn);
+                let start = c.rng.below(4);
+                for k in 0..4 {
+                    let t: &mut Vec<usize> = match (start + k) % 4 {
+                        0 => &mut f.s.table,
+                        1 => &mut f.t.table,
+                        2 => &mut f.h.s.values.table,
+                        _ => &mut f.h.t.values.table,
+                    };
+                    if !t.is_empty() {
+                        let i = c.rng.below(t.len());
+                        t[i] = v;
+                        break;
+                    }
+                }
             }
             _ => {
                 c.knob("mono:by-construction");
